@@ -456,23 +456,32 @@ Print Assumptions C03_disturbed_inspection_fails_or_same.
 Example C03_disturbed_nonvacuous : reads _ _ (cat_of w_db) inspect_prog = 6%nat.
 Proof. vm_compute. reflexivity. Qed.
 
-(** 7b. The contract of 7 is FALSE for the result-set loops of sql/sqlite/inspect.go when the failure arrives
-    while the rows are read (which is where go-sqlite3 reports "database is locked": from rows.Next(), not
-    from QueryContext): none of the six [for rows.Next()] loops looks at rows.Err().  Model of the loop with
-    and without the check; without it, a table-list statement that breaks off before its first row is read
-    as "no tables" -- not an error, and not the undisturbed answer -- for every non-empty catalogue.
-    Reproduced on the real driver with a second connection holding the database during one statement
-    (stage fault, lock mode: 80 of 146 locked inspections export less without an error; known finding
-    C03-rows-err-unchecked, fix proposal notes/fixes/C03-rows-err.diff). *)
-Theorem C03_disturbed_inspection_rows_refuted :
-  forall d, inspect d <> [] ->
-  read_rows_unchecked (inspect d) (Some 0%nat) = Some [] /\
-  read_rows_unchecked (inspect d) (Some 0%nat) <> None /\
-  read_rows_unchecked (inspect d) (Some 0%nat) <> Some (inspect d) /\
-  (forall break, read_rows_checked (inspect d) break = None \/ read_rows_checked (inspect d) break = Some (inspect d)).
+(** 7b. Row-level faults.  A statement can also fail while its rows are read -- that is where go-sqlite3
+    reports "database is locked": from rows.Next(), not from QueryContext.  Until fix C03-rows-err none of the
+    six [for rows.Next()] loops of sql/sqlite/inspect.go looked at rows.Err(): a table-list statement that
+    broke off before its first row was read as "no tables" ([read_rows_unchecked_old_refuted]; finding
+    C03-rows-err-unchecked, fixed).  Now every loop is followed by the check ([read_rows_checked]: a result
+    set that breaks off after any number of rows is a failed read, otherwise all rows are delivered), so the
+    inspection under a plan of row-level faults ([rf n = Some j]: the n-th statement breaks off after j rows)
+    is the program of 7 with exactly those statements failing: for EVERY database and EVERY such plan the
+    inspection is an error iff a statement it issues breaks off -- a failing Next is an error of the
+    inspection -- and exactly [inspect d] otherwise.  Observed on the real driver with a second connection
+    holding the database (BEGIN EXCLUSIVE) during one statement at a time (stage fault, lock mode): every
+    locked inspection must return an error or the undisturbed export. *)
+Theorem C03_disturbed_inspection_rows :
+  forall d rf,
+  (run_rows (cat_of d) rf 0 inspect_prog =
+     if existsb (fun m => match rf m with Some _ => true | None => false end)
+                (seq 0 (reads _ _ (cat_of d) inspect_prog))
+     then None else Some (inspect d)) /\
+  (forall k j, k < reads _ _ (cat_of d) inspect_prog -> rf k = Some j ->
+     run_rows (cat_of d) rf 0 inspect_prog = None) /\
+  (forall (T : Type) (rows : list T) break,
+     read_rows_checked rows break = match break with Some _ => None | None => Some rows end).
 Proof.
-  intros d H. destruct (inspect d) as [|x l] eqn:E; [contradiction|].
-  destruct (read_rows_unchecked_refuted x l) as (A & B & C).
-  split; [exact A|]. split; [exact B|]. split; [exact C|]. intro b. apply read_rows_checked_fails_or_same.
+  intros d rf. split; [apply inspect_disturbed_rows|]. split.
+  - intros k j Hk Hr. unfold run_rows.
+    apply (run_fault_detected _ _ (cat_of d) inspect_prog _ 0 k Hk). cbn. rewrite Hr. reflexivity.
+  - intros T rows b. apply read_rows_checked_spec.
 Qed.
-Print Assumptions C03_disturbed_inspection_rows_refuted.
+Print Assumptions C03_disturbed_inspection_rows.
